@@ -740,7 +740,7 @@ pub fn inject(file: &mut RFile, inj: (u8, u16, u16)) {
 }
 
 /// Maps every name into a 3-name pool (clashes and cross-namespace references arise by themselves).
-fn collapse_names(file: &mut RFile, ch: &mut Chooser) {
+pub fn collapse_names(file: &mut RFile, ch: &mut Chooser) {
     const UP: [&str; 3] = ["A", "B", "C"];
     const LO: [&str; 2] = ["a", "b"];
     let mut up = |id: &mut Id| id.name = UP[ch.pick(3)].to_string();
@@ -759,6 +759,14 @@ fn collapse_names(file: &mut RFile, ch: &mut Chooser) {
     for s in all_syms_mut(file) {
         match s {
             RSym::N(i) | RSym::T(i) => up(i),
+        }
+    }
+    // variant names too: enums with several duplicated names arise by themselves
+    for it in file.items.iter_mut() {
+        if let RItem::Enum { variants, .. } = it {
+            for (vn, _) in variants.iter_mut() {
+                up(vn);
+            }
         }
     }
     let mut k = 0;
